@@ -2,6 +2,7 @@ package merkle
 
 import (
 	"bytes"
+	"errors"
 	"fmt"
 
 	"github.com/tendermint/tendermint/crypto/tmhash"
@@ -93,8 +94,15 @@ func (op ValueOp) Run(args [][]byte) ([][]byte, error) {
 		return nil, fmt.Errorf("leaf hash mismatch: want %X got %X", op.Proof.LeafHash, kvhash)
 	}
 
+	rootHash := op.Proof.ComputeRootHash()
+	if rootHash == nil {
+		// index, total and the number of aunts do not describe a path: without this check the
+		// nil result would be taken for an (empty) value or root by the next comparison
+		return nil, errors.New("proof does not compute a root hash")
+	}
+
 	return [][]byte{
-		op.Proof.ComputeRootHash(),
+		rootHash,
 	}, nil
 }
 
